@@ -15,6 +15,16 @@ package main
 //     flight when a worker died is re-run alone in its own subprocess, so a crash is attributed to
 //     exactly one session.
 //
+//   * stream `stress`: a re-exec'ed child process serves RunATPServer on its stdin/stdout and is
+//     flooded by a pipelining client (thousands of runs per round, no waiting for answers) with a
+//     mix of valid, unknown-step, bad-input, undeclared/invalid-output and panicking work-starts
+//     and signals; several rounds with the normal binary and with a `go build -race` build of this
+//     harness (source dir $HARNESS_SRC, default /verif/harness; with $VERIF_REPO set both binaries
+//     are built against that tree). Oracle: the child exits cleanly with nothing but its marker on
+//     stderr, every accepted run is answered exactly once; a `fatal error:` (e.g. concurrent map
+//     writes), panic or race report is a finding with the head of stderr as detail. This is the
+//     stream that sees unsynchronised access to session state from step/signal goroutines.
+//
 // Oracle findings (prop C07): process crash, RunATPServer not returning after input ended and all
 // handlers were released, a run whose number of terminal messages differs from the number of its
 // accepted work-starts while the output was open, corrupted output framing.
@@ -110,6 +120,7 @@ type atpsRunner struct {
 	gates   map[int]chan struct{}
 	gateMu  sync.Mutex
 	openAll bool
+	quiet   bool // stress child: handlers neither log nor wait
 	runIDs  map[string]int
 	entered map[int]bool
 	exited  map[int]bool
@@ -180,15 +191,17 @@ func atpsBehClass(beh string) string {
 
 func (r *atpsRunner) stepHandler(_ context.Context, _ any, in atpsIn) (string, any) {
 	src := int(in.Src)
-	r.mu.Lock()
-	r.events = append(r.events, map[string]any{"e": "enter", "src": src})
-	r.entered[src] = true
-	r.mu.Unlock()
-	<-r.gate(src)
-	r.mu.Lock()
-	r.events = append(r.events, map[string]any{"e": "exit", "src": src, "b": atpsBehClass(in.Beh)})
-	r.exited[src] = true
-	r.mu.Unlock()
+	if !r.quiet {
+		r.mu.Lock()
+		r.events = append(r.events, map[string]any{"e": "enter", "src": src})
+		r.entered[src] = true
+		r.mu.Unlock()
+		<-r.gate(src)
+		r.mu.Lock()
+		r.events = append(r.events, map[string]any{"e": "exit", "src": src, "b": atpsBehClass(in.Beh)})
+		r.exited[src] = true
+		r.mu.Unlock()
+	}
 	switch in.Beh {
 	case "errout":
 		return "error", atpsErrOut{Error: "declared failure of " + in.Name}
@@ -1193,6 +1206,10 @@ func atpsCmd(a Args) {
 		atpsChild(a)
 		return
 	}
+	if a.Streams == "stresschild" {
+		atpsStressChild()
+		return
+	}
 	if err := os.MkdirAll(a.Out, 0o755); err != nil {
 		panic(err)
 	}
@@ -1205,7 +1222,7 @@ func atpsCmd(a Args) {
 	var sessions []*atpsSession
 	streams := a.Streams
 	if streams == "valid,random" { // the flag's default
-		streams = "directed,grammar,truncate,corrupt"
+		streams = "directed,grammar,truncate,corrupt,stress"
 	}
 	if a.Replay != "" {
 		// replay: the session scripts of an earlier run (sessions.jsonl)
@@ -1381,5 +1398,375 @@ func atpsCmd(a Args) {
 		}
 	}
 	s.stats["sessions"] = len(sessions)
+	if a.Replay == "" {
+		for _, st := range strings.Split(streams, ",") {
+			if st == "stress" {
+				atpsStress(a, s)
+			}
+		}
+	}
 	writeStats(a.Out, s, nil)
+}
+
+// ---------------------------------------------------------------------------------------------
+// stress stream
+
+const atpsStressMarker = "atps-stress: RunATPServer returned"
+
+// atpsStressChild serves one ATP session on the process's stdin/stdout.
+func atpsStressChild() {
+	r := &atpsRunner{gates: map[int]chan struct{}{}, runIDs: map[string]int{}, entered: map[int]bool{}, exited: map[int]bool{}, quiet: true, openAll: true}
+	errs := atp.RunATPServer(context.Background(), os.Stdin, os.Stdout, r.plugin())
+	fmt.Fprintf(os.Stderr, "%s %d errors\n", atpsStressMarker, len(errs))
+}
+
+type atpsStressResult struct {
+	findings []string
+	detail   string
+	runs     int
+	messages int
+	answered int
+	elapsed  time.Duration
+}
+
+// atpsStressRound floods one child with nRuns pipelined work-starts (and signals).
+func atpsStressRound(bin string, seed int64, nRuns int, race bool, timeout time.Duration) (res atpsStressResult) {
+	start := time.Now()
+	defer func() { res.elapsed = time.Since(start) }()
+	rnd := rand.New(rand.NewSource(seed))
+	cmd := exec.Command(bin, "atpserver", "-streams", "stresschild")
+	cmd.Env = append(os.Environ(), "GORACE=halt_on_error=1 exitcode=66")
+	stdin, err := cmd.StdinPipe()
+	if err != nil {
+		res.findings = append(res.findings, "stress: "+err.Error())
+		return
+	}
+	stdout, err := cmd.StdoutPipe()
+	if err != nil {
+		res.findings = append(res.findings, "stress: "+err.Error())
+		return
+	}
+	var stderr bytes.Buffer
+	cmd.Stderr = &stderr
+	if err := cmd.Start(); err != nil {
+		res.findings = append(res.findings, "stress: could not start the child: "+err.Error())
+		return
+	}
+	// what each run is owed
+	expected := map[string]int{}
+	var wmu sync.Mutex
+	// reader: everything the server writes, concurrently with the flood
+	terminal := map[string]int{}
+	serverFatal := 0
+	var readErr error
+	readerDone := make(chan struct{})
+	go func() {
+		defer close(readerDone)
+		dec := cbor.NewDecoder(bufio.NewReaderSize(stdout, 1<<16))
+		var hello atp.HelloMessage
+		if err := dec.Decode(&hello); err != nil {
+			readErr = fmt.Errorf("hello: %w", err)
+			return
+		}
+		for {
+			var m atp.DecodedRuntimeMessage
+			if err := dec.Decode(&m); err != nil {
+				if !errors.Is(err, io.EOF) {
+					readErr = err
+				}
+				return
+			}
+			switch m.MessageID {
+			case atp.MessageTypeWorkDone:
+				terminal[m.RunID]++
+			case atp.MessageTypeError:
+				var em atp.ErrorMessage
+				_ = cbor.Unmarshal(m.RawMessageData, &em)
+				if em.ServerFatal {
+					serverFatal++
+				} else if em.StepFatal {
+					terminal[m.RunID]++
+				}
+			}
+		}
+	}()
+	// writer: no waiting for answers
+	writeDone := make(chan error, 1)
+	go func() {
+		w := bufio.NewWriterSize(stdin, 1<<12)
+		put := func(x any) error {
+			_, err := w.Write(atpsEnc(x))
+			return err
+		}
+		_, _ = w.Write([]byte{0xf6})
+		behs := []string{"ok", "ok", "ok", "errout", "undeclared", "invalid", "panic"}
+		var werr error
+		for i := 0; i < nRuns && werr == nil; i++ {
+			run := fmt.Sprintf("s%d-%d", seed%1000, i)
+			step := "hello"
+			if rnd.Intn(3) == 0 {
+				step = "init"
+			}
+			var m map[string]any
+			switch k := rnd.Intn(100); {
+			case k < 22:
+				m = atpsWS(run, "no-such-step", "x", "ok", i+1)
+			case k < 40:
+				m = atpsWS(run, step, "x", "ok", i+1)
+				delete(m["data"].(map[string]any)["config"].(map[string]any), "name")
+			default:
+				m = atpsWS(run, step, "n", behs[rnd.Intn(len(behs))], i+1)
+			}
+			wmu.Lock()
+			expected[run]++
+			res.messages++
+			wmu.Unlock()
+			werr = put(m)
+			if werr == nil && rnd.Intn(4) == 0 {
+				var sg map[string]any
+				switch rnd.Intn(5) {
+				case 0:
+					sg = atpsSig(run, "no-such-signal", "ok")
+				case 1:
+					sg = atpsSig("ghost", "sig", "ok")
+				case 2:
+					sg = atpsSig(fmt.Sprintf("s%d-%d", seed%1000, rnd.Intn(i+1)), "sig", "ok")
+				default:
+					sg = atpsSig(run, "sig", "ok")
+				}
+				wmu.Lock()
+				res.messages++
+				wmu.Unlock()
+				werr = put(sg)
+			}
+			if rnd.Intn(64) == 0 {
+				_ = w.Flush()
+			}
+		}
+		if werr == nil {
+			werr = put(atpsClientDone())
+		}
+		if werr == nil {
+			werr = w.Flush()
+		}
+		_ = stdin.Close()
+		writeDone <- werr
+	}()
+	waitDone := make(chan error, 1)
+	go func() {
+		<-readerDone
+		waitDone <- cmd.Wait()
+	}()
+	var waitErr error
+	timedOut := false
+	select {
+	case waitErr = <-waitDone:
+	case <-time.After(timeout):
+		timedOut = true
+		_ = cmd.Process.Kill()
+		waitErr = <-waitDone
+	}
+	select {
+	case <-writeDone:
+	case <-time.After(time.Second):
+	}
+	res.runs = nRuns
+	text := stderr.String()
+	head := text
+	if len(head) > 3000 {
+		head = head[:3000]
+	}
+	kind := "normal build"
+	if race {
+		kind = "race-detector build"
+	}
+	switch {
+	case strings.Contains(text, "DATA RACE"):
+		res.findings = append(res.findings, "stress ("+kind+"): the race detector reports a data race in the server under a pipelining client")
+		res.detail = head
+		return
+	case strings.Contains(text, "fatal error:"):
+		res.findings = append(res.findings, "stress ("+kind+"): the server process died under a pipelining client: "+atpsPanicLine(text))
+		res.detail = head
+		return
+	case strings.Contains(text, "panic:") || strings.Contains(text, "[signal "):
+		res.findings = append(res.findings, "stress ("+kind+"): the server process panicked under a pipelining client: "+atpsPanicLine(text))
+		res.detail = head
+		return
+	case timedOut:
+		res.findings = append(res.findings, fmt.Sprintf("stress (%s): the server did not finish %d pipelined runs within %v", kind, nRuns, timeout))
+		res.detail = head
+		return
+	case waitErr != nil:
+		res.findings = append(res.findings, "stress ("+kind+"): the server process ended abnormally: "+waitErr.Error())
+		res.detail = head
+		return
+	}
+	if !strings.Contains(text, atpsStressMarker) {
+		res.findings = append(res.findings, "stress ("+kind+"): the child exited without RunATPServer returning")
+		res.detail = head
+	}
+	if readErr != nil {
+		res.findings = append(res.findings, "stress ("+kind+"): the output stream is not a sequence of runtime messages: "+readErr.Error())
+	}
+	if serverFatal > 0 {
+		res.findings = append(res.findings, fmt.Sprintf("stress (%s): %d server-fatal error messages for a well-formed message stream", kind, serverFatal))
+	}
+	wmu.Lock()
+	defer wmu.Unlock()
+	var wrong []string
+	for run, want := range expected {
+		got := terminal[run]
+		if got == want {
+			res.answered++
+		} else {
+			wrong = append(wrong, fmt.Sprintf("%s: %d terminal message(s)", run, got))
+		}
+	}
+	for run := range terminal {
+		if _, ok := expected[run]; !ok && run != "" {
+			wrong = append(wrong, fmt.Sprintf("%s: terminal message for a run that was never started", run))
+		}
+	}
+	if len(wrong) > 0 {
+		sort.Strings(wrong)
+		n := len(wrong)
+		if len(wrong) > 8 {
+			wrong = wrong[:8]
+		}
+		res.findings = append(res.findings, fmt.Sprintf("stress (%s): %d of %d accepted runs were not answered exactly once: %s", kind, n, len(expected), strings.Join(wrong, "; ")))
+	}
+	return res
+}
+
+// atpsBuildHarness builds this harness (optionally with the race detector, optionally against
+// the tree in $VERIF_REPO) and returns the binary's path.
+func atpsBuildHarness(outDir string, race bool) (string, error) {
+	src := os.Getenv("HARNESS_SRC")
+	if src == "" {
+		src = "/verif/harness"
+	}
+	name := "harness-atps"
+	args := []string{"build"}
+	if race {
+		args = append(args, "-race")
+		name += "-race"
+	}
+	if repo := os.Getenv("VERIF_REPO"); repo != "" {
+		// an alternate go.mod whose replace points at that tree
+		mod, err := os.ReadFile(filepath.Join(src, "go.mod"))
+		if err != nil {
+			return "", err
+		}
+		abs, err := filepath.Abs(repo)
+		if err != nil {
+			return "", err
+		}
+		var lines []string
+		for _, l := range strings.Split(string(mod), "\n") {
+			if strings.HasPrefix(strings.TrimSpace(l), "replace go.flow.arcalot.io/pluginsdk") {
+				l = "replace go.flow.arcalot.io/pluginsdk => " + abs
+			}
+			lines = append(lines, l)
+		}
+		alt := filepath.Join(outDir, "atps-alt.mod")
+		if err := os.WriteFile(alt, []byte(strings.Join(lines, "\n")), 0o644); err != nil {
+			return "", err
+		}
+		if sum, err := os.ReadFile(filepath.Join(src, "go.sum")); err == nil {
+			_ = os.WriteFile(filepath.Join(outDir, "atps-alt.sum"), sum, 0o644)
+		}
+		args = append(args, "-modfile="+alt)
+	}
+	bin := filepath.Join(outDir, name)
+	args = append(args, "-o", bin, "./cmd/harness")
+	build := exec.Command("go", args...)
+	build.Dir = src
+	build.Env = append(os.Environ(), "GOFLAGS=-mod=mod", "GOPROXY=off", "GOSUMDB=off", "GOTOOLCHAIN=local")
+	if out, err := build.CombinedOutput(); err != nil {
+		return "", fmt.Errorf("%v: %s", err, string(out))
+	}
+	return bin, nil
+}
+
+func atpsStress(a Args, s *sink) {
+	outDir, err := filepath.Abs(a.Out)
+	if err != nil {
+		outDir = a.Out
+	}
+	thorough := a.Tier == "thorough"
+	normalRounds, raceRounds, normalRuns, raceRuns := 3, 2, 3000, 1500
+	if thorough {
+		normalRounds, raceRounds, normalRuns, raceRuns = 10, 6, 6000, 3000
+	}
+	report := func(res atpsStressResult, label string) {
+		s.stats["stress:"+label+":rounds"]++
+		s.stats["stress:"+label+":runs"] += res.runs
+		s.stats["stress:"+label+":messages"] += res.messages
+		s.stats["stress:"+label+":answered-once"] += res.answered
+		s.stats["stress:"+label+":ms"] += int(res.elapsed / time.Millisecond)
+		for _, what := range res.findings {
+			var detail []string
+			if res.detail != "" {
+				detail = []string{res.detail}
+			}
+			s.finding(Finding{Prop: "C07", What: what, Cases: []int{}, Detail: detail})
+		}
+	}
+	self := os.Args[0]
+	if os.Getenv("VERIF_REPO") != "" {
+		bin, err := atpsBuildHarness(outDir, false)
+		if err != nil {
+			s.stats["stress:build-failed"]++
+			s.finding(Finding{Prop: "C07", What: "stress: could not build the harness against $VERIF_REPO: " + err.Error(), Cases: []int{}})
+			return
+		}
+		defer os.Remove(bin)
+		self = bin
+	}
+	// the race-detector build is prepared while the normal rounds run
+	type built struct {
+		bin string
+		err error
+	}
+	raceBin := make(chan built, 1)
+	go func() {
+		bin, err := atpsBuildHarness(outDir, true)
+		raceBin <- built{bin, err}
+	}()
+	var wg sync.WaitGroup
+	var rmu sync.Mutex
+	for i := 0; i < normalRounds; i++ {
+		i := i
+		wg.Add(1)
+		go func() {
+			defer wg.Done()
+			res := atpsStressRound(self, a.Seed*7919+int64(i), normalRuns, false, 60*time.Second)
+			rmu.Lock()
+			report(res, "normal")
+			rmu.Unlock()
+		}()
+	}
+	wg.Wait()
+	rb := <-raceBin
+	if rb.err != nil {
+		s.stats["stress:race-build-failed"]++
+		s.finding(Finding{Prop: "C07", What: "stress: could not build the race-detector harness: " + rb.err.Error(), Cases: []int{}})
+	} else {
+		for i := 0; i < raceRounds; i++ {
+			i := i
+			wg.Add(1)
+			go func() {
+				defer wg.Done()
+				res := atpsStressRound(rb.bin, a.Seed*104729+int64(i), raceRuns, true, 120*time.Second)
+				rmu.Lock()
+				report(res, "race")
+				rmu.Unlock()
+			}()
+		}
+		wg.Wait()
+		_ = os.Remove(rb.bin)
+	}
+	_ = os.Remove(filepath.Join(outDir, "atps-alt.mod"))
+	_ = os.Remove(filepath.Join(outDir, "atps-alt.sum"))
 }
